@@ -36,15 +36,23 @@ theorem makeRoom_space (b : Buffer) (h : b.wf) : b.makeRoom.len < b.makeRoom.cap
       by_cases hlt : b.offset + b.unread.length < Gen.Teehistorian.BUFFER_SIZE <;>
         simp only [hlt, if_true, if_false] <;> omega
 
-theorem readMore_none {b : Buffer} {c : Cb} (h : readMore b c = none) : c.rem = [] ∧ c.ds = [] := by
+theorem readMore_none {b : Buffer} {c : Cb} (h : readMore b c = none) : c.rem = [] := by
   unfold readMore Cb.read at h
   cases hds : c.ds with
-  | cons d ds' => rw [hds] at h; simp at h
+  | cons d ds' =>
+    rw [hds] at h
+    simp only at h
+    by_cases hc : c.strictEof = true ∧ d ≠ 0 ∧ c.rem.isEmpty = true
+    · cases hrem : c.rem with
+      | nil => rfl
+      | cons x xs => rw [hrem] at hc; simp at hc
+    · simp only [hc, if_false] at h
+      simp at h
   | nil =>
     rw [hds] at h
     simp only at h
     cases hrem : c.rem with
-    | nil => exact ⟨rfl, rfl⟩
+    | nil => rfl
     | cons x xs => rw [hrem] at h; simp at h
 
 theorem readMore_some {b b' : Buffer} {c c' : Cb} (hw : b.wf) (h : readMore b c = some (b', c')) :
@@ -55,13 +63,16 @@ theorem readMore_some {b b' : Buffer} {c c' : Cb} (hw : b.wf) (h : readMore b c 
   cases hds : c.ds with
   | cons d ds' =>
     rw [hds] at h
-    simp only [Option.some.injEq, Prod.mk.injEq] at h
-    obtain ⟨rfl, rfl⟩ := h
-    refine ⟨?_, ?_, ?_⟩
-    · simp only [logical, hun, List.append_assoc, List.take_append_drop]
-    · simp only [Buffer.wf, Buffer.len, List.length_append, List.length_take] at hsp ⊢
-      omega
-    · simp only [Cb.measure, hds, List.length_cons, List.length_drop]; omega
+    simp only at h
+    by_cases hc : c.strictEof = true ∧ d ≠ 0 ∧ c.rem.isEmpty = true
+    · simp [hc] at h
+    · simp only [hc, if_false, Option.some.injEq, Prod.mk.injEq] at h
+      obtain ⟨rfl, rfl⟩ := h
+      refine ⟨?_, ?_, ?_⟩
+      · simp only [logical, hun, List.append_assoc, List.take_append_drop]
+      · simp only [Buffer.wf, Buffer.len, List.length_append, List.length_take] at hsp ⊢
+        omega
+      · simp only [Cb.measure, hds, List.length_cons, List.length_drop]; omega
   | nil =>
     rw [hds] at h
     simp only at h
@@ -75,7 +86,7 @@ theorem readMore_some {b b' : Buffer} {c c' : Cb} (hw : b.wf) (h : readMore b c 
       · simp only [logical, hun, hrem, List.append_assoc, List.take_append_drop]
       · simp only [Buffer.wf, Buffer.len, List.length_append, List.length_take] at hsp ⊢
         omega
-      · simp only [Cb.measure, hds, hrem, List.length_drop, List.length_cons, List.length_nil, Buffer.len] at hsp ⊢
+      · simp only [Cb.measure, hrem, List.length_drop, List.length_cons, List.length_nil, Buffer.len] at hsp ⊢
         omega
 
 /-- The refill loop returns what the parser returns on the *whole* remaining stream, whatever the
@@ -122,7 +133,7 @@ theorem parseLoop_spec {α : Type} {p : Parser α} (hp : Good p) :
       simp only
       cases hrm : readMore b c with
       | none =>
-        obtain ⟨hr, _⟩ := readMore_none hrm
+        have hr := readMore_none hrm
         have hl : logical b c = b.unread := by simp [logical, hr]
         refine ⟨?_, ?_, ?_⟩
         · intro x rest h; rw [hl, hpu] at h; simp at h
